@@ -22,6 +22,28 @@ OPTIONS = ["-i8", "-i16", "-i32", "-i64", "-O0", "-O1", "-O2", "-O3", "-O4", "-O
 STDIN = bytes([7, 9, 200, 0, 65, 3])
 
 
+def _width_probe():
+    """A fragment whose output tells the four cell widths apart: it builds 2^8, 2^16 and 2^32 by
+    doubling loops and prints, for each, 0 if the value is non-zero and 1 if it wrapped to zero
+    (8 bit: 1 1 1, 16 bit: 0 1 1, 32 bit: 0 0 1, 64 bit: 0 0 0).  Its canonical run takes 2^32 steps
+    at 64 bit: it is only run on optimising pipelines and judged with BF!Accel."""
+    from . import heavy
+    b = heavy.B()
+    b.const(0, 1)
+    cur = 0
+    for shift in (8, 8, 16):
+        cur = heavy.scale(b, cur, 1 - cur, [16] * (shift // 4))
+        b.clear(2)
+        b.clear(3)
+        b.mulmove(cur, [(2, 1), (3, 1)])
+        heavy.flag(b, 2, 5)
+        b.mulmove(3, [(cur, 1)])
+    return b.text()
+
+
+TEXT["code:h"] = _width_probe()
+
+
 def spelling(tok):
     if tok in FILES:
         return FILES[tok][0]
@@ -104,6 +126,17 @@ def c16(tier):
     rep.add_tlc(res)
     gen += [r for r in res.records if "argv" in r and len(r["argv"]) == (3 if tier == "quick" else 4)
             and r["expected"]["prints"] == 1]
+    # the selected width must be the one that runs: a fragment that tells all four widths apart (only
+    # optimising pipelines can finish it at 64 bit, so no --inplace / -O0 in this family)
+    wid = ["-i8", "-i16", "-i32", "-i64", "--bc-int", "--ir-int", "--base-jit", "-O1", "-O3", "code:h"]
+    tpw = os.path.join(d, "tokens-width.ndjson")
+    token_file(wid, tpw)
+    res = tlc.run_tlc("Cli", env={"GEN": 1, "MAXLEN": 3 if tier == "quick" else 4, "TOKENS": tpw, "CASES": "/dev/null"},
+                      workers=8, timeout=1800)
+    rep.add_tlc(res)
+    widths = [r for r in res.records if "argv" in r and r["argv"].count("code:h") == 1
+              and r["expected"]["executes"] == 1 and r["expected"]["defined"] == 1]
+    gen += widths
     if tier != "quick":
         small += ["-i64", "--inplace", "--print-jit-bc", "file:B", "code:c"]
     tp2 = os.path.join(d, "tokens-small.ndjson")
@@ -171,7 +204,7 @@ def c16(tier):
             bftraces.append({"id": cid, "prog": list(text), "w": e["bits"], "input": list(STDIN), "outFail": -1,
                              "inFail": -1, "inAbsent": 0, "outAbsent": 0, "inSilent": 1,
                              "log": [["out", b] for b in obs["stdout"]], "claim": claim, "mustFinish": 0,
-                             "detail": "", "refused": 0})
+                             "detail": "", "refused": 0, "accel": 1 if "code:h" in g["argv"] else 0})
     if render_reqs:
         ans = pool.simple_requests(hv, list(render_reqs.values()), timeout=60.0)
         byid = {c["id"]: c for c in cases}
